@@ -227,6 +227,27 @@ def check(run):
                                   kind, kw, value, tr[k] if k < len(tr) else "<missing>", ref_trace[k] if k < len(ref_trace) else "<missing>"),
                               {"kind": "scenario", "variant": variant, "scenario": scenario})
 
+    MODERATE = ("zero", "negative", "one", "small-positive", "fraction", "absent")
+
+    def check_finite(kind, kw, v, variant, res, scenario, classes):
+        """an ACCEPTED configuration whose values under test are all of moderate size must not hand NaN or inf to the engine"""
+        def moderate(t):
+            try:
+                x = float(t)
+            except ValueError:
+                return t == "-"
+            return x == x and (x == 0 or 1e-6 <= abs(x) <= 1e6)
+        if res["cls"] != "ok" or any(c not in MODERATE for c in classes) or not all(moderate(t) for t in (v.split() or [v])):
+            return
+        lc = last_config(res)
+        if not (lc and lc[0] == "ok"):
+            return
+        m = re.search(r"^(ENERGY|BIAS \S+|CV \S+|ATOMF \d+(?: \S+)*?) -?(nan|inf)", res["out"], re.M)
+        if m:
+            run.violation("nonfinite:%s.%s:%s" % (kind, kw, "-".join(classes) or "empty"),
+                          "accepted configuration (%s %s = %s, %s build) hands a non-finite value to the engine: %s" % (kind, kw, v, variant, m.group(0)),
+                          {"kind": "scenario", "variant": variant, "scenario": scenario})
+
     # ------------------------------------------------------------------ 1. guard-table sweep (tie)
     values = list(L.BOUNDARY_VALUES) + ([] if quick else list(L.EXTRA_VALUES))
     # witnesses of the theorems (always run)
@@ -295,6 +316,7 @@ def check(run):
         nontrivial = (impl != "accept") or (v not in ("1", "2"))
         run.count((eid, value_class(v), var), nontrivial)
         run.dist("table:%s:%s" % (var, impl if impl in ("accept", "reject") else "died"))
+        check_finite(kind, kw, v, var, rr, scen[(eid, v)], [value_class(v)])
         if cls != "ok":
             n_dead += 1
             report_death(kind, kw, v, var, rr, scen[(eid, v)], " (model: %s)" % mo)
@@ -717,6 +739,7 @@ def check(run):
             continue
         if impl == "reject":
             check_survivors("vector", label, v, var, rr, sc)
+        check_finite("vector", label, v, var, rr, sc, [value_class(t) for t in v.split()])
         if impl != mo.split()[0]:
             run.mismatch("vector:" + label, "%s = %s (%s)" % (label, v, var), impl, mo)
     run.sample({"vector_case": "%s = %s" % vcases[1], "model": vout[1] if len(vout) > 1 else None})
@@ -839,7 +862,7 @@ def check(run):
     # ------------------------------------------------------------------ 4. search: harvested keywords
     budget = 35 if quick else 600
     search(run, r, plain, asan if not quick else None, W, quick, report_death, check_survivors_search=None,
-           deadline=t_start + (70 if quick else 780))
+           deadline=t_start + (70 if quick else 780), check_finite=check_finite)
     run.notes.append("deaths in the table sweep: %d" % n_dead)
 
 
@@ -1068,7 +1091,7 @@ def big_scenario(conf, log=None, nsteps=5):
     return "\n".join(S) + "\n"
 
 
-def search(run, r, plain, asan, W, quick, report_death, check_survivors_search, deadline):
+def search(run, r, plain, asan, W, quick, report_death, check_survivors_search, deadline, check_finite=lambda *a: None):
     hv = harvested(plain, W)
     run.dist("search:configurations-harvested", len(hv))
     universe = []
@@ -1150,6 +1173,7 @@ def search(run, r, plain, asan, W, quick, report_death, check_survivors_search, 
             if rr["cls"] != "ok":
                 report_death(label, kw, v, variant, rr, sc, " (configuration %s)" % name)
                 continue
+            check_finite(label, kw.lower(), v, variant, rr, sc, [value_class(t) for t in v.split()] if v.strip() else [])
             if impl == "reject" and variant == "plain":
                 ol = objs_lines(rr["out"])
                 if len(ol) >= 2 and not (ol[1][0].startswith(ol[0][0]) and ol[1][1].startswith(ol[0][1])):
